@@ -578,3 +578,14 @@ def x20_take_enumerate(s):
                % (n, recv, idx, idx, k, idx, n, val, n, idx, body, idx))
         hits.append(' '.join(s[m.start():m.end()].split()))
         s = s[:m.start()] + new + s[e + 1:]
+
+
+# ---------------------------------------------------------------- X23 match on the never type
+def x23_match_never(s):
+    hits = []
+    pat = re.compile(r'\bmatch (\w+) \{\s*\}')
+
+    def sub(m):
+        hits.append(m.group(0))
+        return 'vstd::pervasive::unreached()'
+    return pat.sub(sub, s), hits
